@@ -5248,13 +5248,9 @@ func (a *Agent) TaskDispatch(RequestID uint32, CommandID uint32, Parser *parser.
 										Message["MiscType"] = "reconnect"
 										Message["MiscData"] = fmt.Sprintf("%v;%x", a.NameID, AgentHdr.AgentID)
 
+										// detach from the previous parent (its links, the parent pointer and the db row)
 										if DemonInfo.Pivots.Parent != nil {
-											for i := range DemonInfo.Pivots.Parent.Pivots.Links {
-												if DemonInfo.Pivots.Parent.Pivots.Links[i].NameID == fmt.Sprintf("%08x", AgentHdr.AgentID) {
-													DemonInfo.Pivots.Parent.Pivots.Links = append(DemonInfo.Pivots.Parent.Pivots.Links[:i], DemonInfo.Pivots.Parent.Pivots.Links[i+1:]...)
-													break
-												}
-											}
+											teamserver.LinkRemove(DemonInfo.Pivots.Parent, DemonInfo, true)
 										}
 
 										DemonInfo.Active = true
